@@ -291,3 +291,43 @@ class DisconnectDependentLines(Contract):
                 return z3.BoolVal(False)
             return z3.ForAll([t], st.zh["visited"][t] == z3.If(has, count_before(t, n0), 0))
         return [Case("link", [s], post, pre=pre, zh=h0, models=models, invariants={k: v for k, v in inv.items() if v}, symbols={})]
+
+
+@register
+class SearchDuplicate(Contract):
+    fn = "gfapy/lines/finders.py::Finders._search_duplicate"
+    props = ("C09", "C12")
+    doc = ("the line a new line collides with: for a link, the stored link with the same ends (either complement form) - unless that is only a "
+           "placeholder while the link's identifier names ANOTHER line, which then takes precedence (the identifier clash must be reported); "
+           "without such a link, the line carrying its identifier; for the other named record types the line carrying the identifier; "
+           "nothing for anonymous record types")
+
+    def cases(self, ctx):
+        g = ctx.gfapy
+        rt, prt = enum("record_type", ["L", "S", "E", "F", "#"])
+        found, found_virtual, named, same = z3.Bool("link_with_same_ends_stored"), z3.Bool("that_link_is_a_placeholder"), z3.Bool("identifier_in_use"), z3.Bool("identifier_names_that_link")
+        gfa = Obj(g.Gfa, "gfa")
+        line = Obj(g.Line, "new_line")
+        lk, other = Obj(g.line.edge.Link, "stored_link"), Obj(g.Line, "line_with_the_identifier")
+        heap = {gfa.oid: {}, line.oid: {"record_type": rt, "oriented_from": Obj(None, "f"), "oriented_to": Obj(None, "t"), "alignment": Obj(None, "a"), "name": Obj(None, "nm")},
+                lk.oid: {"virtual": found_virtual}, other.oid: {}}
+        for o in list(heap[line.oid].values()):
+            if isinstance(o, Obj):
+                heap[o.oid] = {}
+        def m_search_link(E, st, pos, kw):
+            yield ("val", lk, [found]); yield ("val", None, [z3.Not(found)])
+        def m_line(E, st, pos, kw):
+            yield ("val", None, [z3.Not(named)])
+            yield ("val", lk, [named, found, same])
+            yield ("val", other, [named, z3.Not(z3.And(found, same))])
+        models = {ctx.fn("gfapy/lines/finders.py::Finders._search_link"): m_search_link, ctx.fn("gfapy/lines/finders.py::Finders.line"): m_line}
+        def is_(v, o):
+            return z3.BoolVal(isinstance(v, Obj) and v.oid == o.oid)
+        def post(kd, v, st):
+            if kd != "return":
+                return z3.BoolVal(False)
+            by_name = z3.If(named, z3.If(z3.And(found, same), is_(v, lk), is_(v, other)), z3.BoolVal(v is None))
+            want_L = z3.If(found, z3.If(z3.And(found_virtual, named, z3.Not(same)), is_(v, other), is_(v, lk)), by_name)
+            return z3.If(rt == sv("L"), want_L, z3.If(z3.Or(rt == sv("S"), rt == sv("E")), by_name, z3.BoolVal(v is None)))
+        return [Case("kinds", [gfa, line], post, pre=[prt], heap=heap, models=models,
+                     symbols=dict(record_type=rt, link_with_same_ends_stored=found, that_link_is_a_placeholder=found_virtual, identifier_in_use=named, identifier_names_that_link=same))]
